@@ -15,8 +15,8 @@ structure Start (ci : Conn) : Prop where
   posIn : 0 < ci.sess.nextIn
   posOut : 0 < ci.sess.nextOut
   fresh : JFresh ci
-  asciiS : asciiStr ci.sess.sender = true
-  asciiT : asciiStr ci.sess.target = true
+  latinS : isLatin1 ci.sess.sender = true
+  latinT : isLatin1 ci.sess.target = true
 
 /-- an acceptor-side connection waiting for the Logon of `ci` -/
 structure AccStart (ci ca : Conn) : Prop where
@@ -30,7 +30,7 @@ structure AccStart (ci ca : Conn) : Prop where
 structure LogonMsg (m : Msg) : Prop where
   ty : m.mtype = mLogon
   noPossDup : (m.get? tPossDupFlag).getD "N" ≠ "Y"
-  ascii : asciiMsg m = true
+  latin1 : latin1Msg m = true
   has98 : m.has tEncryptMethod = true
   has108 : m.has tHeartBtInt = true
 
@@ -43,8 +43,8 @@ theorem lookup_mem {t : Nat} {v : String} {tags : List (Nat × String)} (h : Msg
     · simp [Msg.lookup, hk] at h; subst hk; subst h; simp
     · simp [Msg.lookup, hk] at h; exact List.mem_cons_of_mem _ (ih h)
 
-theorem ascii_of_get? {m : Msg} {t : Nat} {v : String} (hm : asciiMsg m = true) (h : m.get? t = some v) : asciiStr v = true := by
-  simp only [asciiMsg, Bool.and_eq_true, List.all_eq_true] at hm
+theorem latin1_of_get? {m : Msg} {t : Nat} {v : String} (hm : latin1Msg m = true) (h : m.get? t = some v) : isLatin1 v = true := by
+  simp only [latin1Msg, Bool.and_eq_true, List.all_eq_true] at hm
   exact hm.2 (t, v) (lookup_mem h)
 
 /-- connection of the initiator after its first Logon went out -/
@@ -59,19 +59,19 @@ def iAfterLogon (ci : Conn) (env : Env) (m g : Msg) : Conn :=
 def aAfterLogon (ca : Conn) (env : Env) (f : Msg) : Conn :=
   { afterIn (afterSend ca env (logonReply f)) env f with state := st_ACTIVE, role := roleAcceptor, wasActive := true }
 
-theorem appSend_logon {env : Env} {ci : Conn} {m : Msg} (h : Start ci) (hm : LogonMsg m) (henv : asciiStr env.stamp = true) :
+theorem appSend_logon {env : Env} {ci : Conn} {m : Msg} (h : Start ci) (hm : LogonMsg m) (henv : isLatin1 env.stamp = true) :
     appSend env ci m = (iAfterLogonSent ci env m, [.onState st_LOGON_INITIAL_SENT, .write (sentFrame ci env m)]) := by
   have := sendMsg_first_logon (env := env) h.st hm.ty hm.noPossDup
-    (frameLatin1_of_isAscii (sentFrame_ascii h.asciiS h.asciiT henv hm.ascii)) (jOut_spec env m h.fresh) h.sock
+    ((sentFrame_latin1 h.latinS h.latinT henv hm.latin1)) (jOut_spec env m h.fresh) h.sock
   simp [appSend, M.run, this, iAfterLogonSent, afterSend]
 
-theorem logonReply_ascii {f : Msg} {e h : String} (h98 : f.get? tEncryptMethod = some e) (h108 : f.get? tHeartBtInt = some h)
-    (he : asciiStr e = true) (hh : asciiStr h = true) : asciiMsg (logonReply f) = true := by
-  simp [asciiMsg, logonReply, Msg.mk', h98, h108, he, hh]; decide
+theorem logonReply_latin1 {f : Msg} {e h : String} (h98 : f.get? tEncryptMethod = some e) (h108 : f.get? tHeartBtInt = some h)
+    (he : isLatin1 e = true) (hh : isLatin1 h = true) : latin1Msg (logonReply f) = true := by
+  simp [latin1Msg, logonReply, Msg.mk', h98, h108, he, hh]; decide
 
 theorem recv_logon_acc {sr : Msg → Bool} {env : Env} {ci ca : Conn} {m : Msg} (hs : Start ci) (h : AccStart ci ca)
-    (hm : LogonMsg m) (henv : asciiStr env.stamp = true)
-    (haS : asciiStr ca.sess.sender = true) (haT : asciiStr ca.sess.target = true) :
+    (hm : LogonMsg m) (henv : isLatin1 env.stamp = true)
+    (haS : isLatin1 ca.sess.sender = true) (haT : isLatin1 ca.sess.target = true) :
     recv sr env ca (sentFrame ci env m) =
       (aAfterLogon ca env (sentFrame ci env m),
        [.onState st_LOGON_INITIAL_RECV, .write (sentFrame ca env (logonReply (sentFrame ci env m))), .onState st_ACTIVE,
@@ -82,12 +82,12 @@ theorem recv_logon_acc {sr : Msg → Bool} {env : Env} {ci ca : Conn} {m : Msg} 
     unfold sentFrame; rw [buildFrame_get?_body _ _ _ _ _ (by decide)]; exact he
   have h108 : (sentFrame ci env m).get? tHeartBtInt = some b := by
     unfold sentFrame; rw [buildFrame_get?_body _ _ _ _ _ (by decide)]; exact hb
-  have hra := logonReply_ascii h98 h108 (ascii_of_get? hm.ascii he) (ascii_of_get? hm.ascii hb)
+  have hra := logonReply_latin1 h98 h108 (latin1_of_get? hm.latin1 he) (latin1_of_get? hm.latin1 hb)
   have hpos : 0 < ca.sess.nextIn := by rw [h.peer.oi]; exact hs.posOut
   have hj1 := jOut_spec env (logonReply (sentFrame ci env m)) h.fresh
   have hj2 := jIn_spec (sentFrame ci env m) (jfresh_afterSend env (logonReply (sentFrame ci env m)) h.fresh)
   have := recv_logon_acceptor (sr := sr) (env := env) (addressed_peer h.peer env m) h.st hm.ty h98 h108
-    (frameLatin1_of_isAscii (sentFrame_ascii haS haT henv hra)) hj1 h.sock hpos hj2
+    ((sentFrame_latin1 haS haT henv hra)) hj1 h.sock hpos hj2
   rw [this]
   rfl
 
